@@ -645,6 +645,9 @@ class HostNamespace:
     def get(self, it, name):
         if name in self.d:
             return self.d[name]
+        if self.name != 'locals':
+            # a partial model of a real object (sys.stdin, ...)
+            raise Unsupported('%s.%s is not modelled' % (self.name, name))
         it.throw(AttributeError, "'%s' has no attribute '%s'"
                  % (self.name, name))
 
